@@ -95,8 +95,26 @@ pub fn g2() -> Vec<FamGrammar> {
             let mut alphabet = vec![lit("x"), lit("+"), lit("*"), lit("^")];
             if pre.is_some() { alphabet.push(lit("-")); }
             if post.is_some() { alphabet.push(lit("!")); }
-            out.push(FamGrammar { id: g.name.clone(), g, alphabet, has_ws_extras: true, kind: "G2",
-                op_table: Some(OpTable { binary: bin, prefix: pre.map(|l| ("-".to_string(), l)), postfix: post.map(|l| ("!".to_string(), l)) }) });
+            out.push(FamGrammar { id: g.name.clone(), g, alphabet: alphabet.clone(), has_ws_extras: true, kind: "G2",
+                op_table: Some(OpTable { binary: bin.clone(), prefix: pre.map(|l| ("-".to_string(), l)), postfix: post.map(|l| ("!".to_string(), l)) }) });
+            // the same table with every binary operator reached through a hidden non-terminal (`_op_k -> op | '&k'`): the
+            // production that is shifted then continues with a non-terminal, not a token, after the shared operand
+            if ui == 0 || ui == 6 {
+                let mut alts = vec![s("x")];
+                let mut g = G::new(&format!("g2h_{}_{}", ui, code)).rule("top", e());
+                let mut oprules = vec![];
+                for (k, (op, lvl, right)) in bin.iter().enumerate() {
+                    let body = seq(vec![e(), sym(&format!("_op{}", k)), e()]);
+                    alts.push(if *right { prec_right(*lvl, body) } else { prec_left(*lvl, body) });
+                    oprules.push((format!("_op{}", k), choice(vec![s(op), s(&format!("&{}", k))])));
+                }
+                if let Some(l) = pre { alts.push(prec(*l, seq(vec![s("-"), e()]))); }
+                if let Some(l) = post { alts.push(prec(*l, seq(vec![e(), s("!")]))); }
+                g = g.rule("e", choice(alts));
+                for (n, r) in oprules { g = g.rule(&n, r); }
+                out.push(FamGrammar { id: g.name.clone(), g, alphabet, has_ws_extras: true, kind: "G2",
+                    op_table: Some(OpTable { binary: bin, prefix: pre.map(|l| ("-".to_string(), l)), postfix: post.map(|l| ("!".to_string(), l)) }) });
+            }
         }
     }
     out
